@@ -82,6 +82,8 @@ def check(run: Run) -> None:
              "(a cut piece of a balanced string need not be balanced, which would void the induction of L1/L2)")
     run.rule("L4", "a printer method that receives an outer exponent `exp` uses it on every path that can return with exp given")
     run.rule("L5", "the printer never rounds or re-formats numbers (no precision format spec, round(), float()) - the printed number is the number")
+    run.rule("L7", "the name helpers attach a subscript to a LaTeX name as a braced group `_{...}` (an unbraced multi-character subscript is read by TeX as one token followed by a product)")
+    run.rule("L8", "whether two neighbouring factors need the number separator (2 \\cdot 10^{n}) is decided on their rendered text, not on the class of the factors")
     run.rule("L6", "no f-string of the printer emits a literal `{name}` where `name` is a variable in scope (an unsubstituted placeholder)")
     pm = run.src.need(PRINTER)
     classes = [c for c in pm.tree.body if isinstance(c, ast.ClassDef) and any(dotted(b) == "LatexPrinter" for b in c.bases)]
@@ -192,6 +194,7 @@ def check(run: Run) -> None:
         for node, name in unsubstituted_placeholders(meth):
             run.violate("L6", f"{PRINTER}:{meth.name}:literal-{{{name}}}", pm, node,
                         f"f-string `{norm(node, 70)}` in {meth.name} emits the literal text `{{{name}}}` although `{name}` is a variable in scope: its value is not printed")
+    _l7_l8(run, pm, classes)
     # ---- L5
     for meth in [s_ for s_ in classes[0].body if isinstance(s_, ast.FunctionDef)]:
         run.ob("L5", meth.name)
@@ -228,3 +231,47 @@ def _exp_is_none(cond, pol: bool) -> bool:
     if isinstance(cond, ast.Name) and cond.id == "exp":
         return pol is False
     return False
+
+
+def _l7_l8(run: Run, pm, classes) -> None:
+    # ---- L7
+    for modname, fname in (("symplyphysics.core.symbols.symbols", "_process_subscript_and_names"), ("symplyphysics.core.experimental.vectors", "_process_vector_names")):
+        m = run.src.need(modname)
+        fn = next(s_ for s_ in m.tree.body if isinstance(s_, ast.FunctionDef) and s_.name == fname)
+        n = 0
+        for js in [x for x in ast.walk(fn) if isinstance(x, ast.JoinedStr)]:
+            names = {y.id for v in js.values if isinstance(v, ast.FormattedValue) for y in ast.walk(v.value) if isinstance(y, ast.Name)}
+            to_latex = any(isinstance(a_, ast.Assign) and a_.value is js and any("latex" in (dotted(t_) or "") for t_ in a_.targets) for a_ in ast.walk(fn))
+            has_cmd = any(isinstance(v, ast.Constant) and isinstance(v.value, str) and "\\" in v.value for v in js.values)
+            if not (any("latex" in nm for nm in names) or to_latex or has_cmd):
+                continue  # a code-name template: `name_sub` is the code spelling
+            for a, b in zip(js.values, js.values[1:]):
+                if isinstance(b, ast.FormattedValue) and isinstance(a, ast.Constant) and isinstance(a.value, str) and a.value and a.value[-1] in "_^":
+                    n += 1
+                    run.ob("L7", f"{fname}:{norm(js, 40)}")
+                    run.violate("L7", f"{modname}:{fname}:unbraced-script:{norm(js, 50)}", m, js,
+                                f"LaTeX name template `{norm(js, 60)}` attaches `{norm(b.value, 20)}` after `{a.value[-1]}` without braces: for a name that already contains braces "
+                                f"(\\mathcal{{E}}, E_\\text{{k}}) the printer prints it verbatim, and TeX reads `\\mathcal{{E}}_12` as E_1 times 2")
+                elif isinstance(b, ast.FormattedValue) and isinstance(a, ast.Constant) and isinstance(a.value, str) and (a.value.endswith("_{") or a.value.endswith("^{")):
+                    n += 1
+                    run.ob("L7", f"{fname}:{norm(js, 40)}")
+        run.floor("L7", n, 1, f"script placeholders in the LaTeX templates of {fname}")
+    # ---- L8
+    mul = next((s_ for s_ in classes[0].body if isinstance(s_, ast.FunctionDef) and s_.name == "_print_Mul"), None)
+    run.require(mul is not None, "_print_Mul not found in the LaTeX printer")
+    from ..flow import CFG
+    hits = 0
+    for fn in [x for x in ast.walk(mul) if isinstance(x, ast.FunctionDef)]:
+        cfg = CFG(fn)
+        for node in cfg.stmt_nodes():
+            a = node.ast
+            if node.kind == "test" and isinstance(a, ast.If) and any(isinstance(x, ast.AugAssign) and isinstance(x.value, ast.Name) and x.value.id == "numbersep" for x in a.body):
+                hits += 1
+                run.ob("L8", f"{fn.name}:number-separator-decision")
+                sl = cfg.slice(node, [a.test])
+                rendered = [c for c in sl.calls if c.startswith("self._print") or c.startswith("self.parenthesize")]
+                if not rendered:
+                    run.violate("L8", f"{PRINTER}:_print_Mul:numbersep-decision", pm, a.test,
+                                f"the number separator is chosen by `{norm(a.test, 70)}`, which does not look at the rendered factors: a factor that is not a Number but whose LaTeX "
+                                f"starts with a digit (10^{{n}}, 3!, 1\\,\\text{{Gyr}}) is juxtaposed to a numeric coefficient - `2 10^{{n}}` reads as 210^n")
+    run.require(hits >= 1, "the number-separator decision of _print_Mul was not found")
